@@ -347,6 +347,27 @@ func genC18(ws []*World, r *core.Rand, free bool) *C18Run {
 	k := 2 + r.Intn(5)
 	same := r.Intn(2) == 0
 	w0 := ws[r.Intn(len(ws))]
+	// a quarter of the runs stress one grammar that has lexer modes with
+	// several lexer instances whose inputs start with a lexical error (the
+	// driver then resets the machine) before modes are pushed and popped
+	var moded []*World
+	for _, w := range ws {
+		if len(w.E.Spec.Modes) > 1 {
+			moded = append(moded, w)
+		}
+	}
+	if len(moded) > 0 && r.Intn(4) == 0 {
+		w := moded[r.Intn(len(moded))]
+		run.Policy = []string{"uniform", "alternate"}[r.Intn(2)]
+		for i := 0; i < k; i++ {
+			in := w.genInput(r).Input
+			if r.Intn(4) > 0 {
+				in = append([]byte{'\x01', '\n'}, in...)
+			}
+			run.Tasks = append(run.Tasks, C18Task{Pkg: w.E.Pkg, Kind: "lex", Input: in})
+		}
+		return run
+	}
 	for i := 0; i < k; i++ {
 		w := w0
 		if !same {
